@@ -363,7 +363,8 @@ pub fn check_mesen(text: &str, prog: &Program, m: &RefOk, ok: &sut::AsmOk) -> Re
             _ => {}
         }
     }
-    let all8 = ok.banks.iter().all(|b| b.unit == 8);
+    // (the offsets come from the layout: the bit offset of the label in the output, whatever the bank's address unit)
+    let _ = ok;
     for line in text.lines() {
         let parts: Vec<&str> = line.splitn(3, ':').collect();
         if parts.len() != 3 {
@@ -382,7 +383,7 @@ pub fn check_mesen(text: &str, prog: &Program, m: &RefOk, ok: &sut::AsmOk) -> Re
                 }
             }
         }
-        if parts[0] == "P" && all8 {
+        if parts[0] == "P" {
             match w {
                 Some(bitoff) if bitoff % 8 == 0 && bitoff / 8 >= 0x10 => {
                     if off != bitoff / 8 - 0x10 {
@@ -393,7 +394,7 @@ pub fn check_mesen(text: &str, prog: &Program, m: &RefOk, ok: &sut::AsmOk) -> Re
             }
         }
     }
-    if all8 {
+    {
         for (n, w) in &want {
             if let Some(bitoff) = w {
                 if bitoff % 8 == 0 && bitoff / 8 >= 0x10 && !text.lines().any(|l| l.ends_with(&format!(":{}", n)) && l.starts_with("P:")) {
@@ -415,8 +416,8 @@ impl Property for C12 {
          sub-directory; assembled, then formatted in 8 listings: annotated with base in {2,4,8,16,32,64,128} x group 1..9 (3 draws), tcgame base {2,16} x group 1..9 (2 draws), addrspan, \
          symbols, mesen-mlb. Oracle = a parser per format: number of rows = number of emitted items in output order; per row the position equals the item's offset split by the group size, \
          the address equals the item's address, the digits equal the bits actually at that position (zero past the end), the excerpt / file:line:column equals the source text and place the \
-         generator put the item; symbols = exactly the declared, emitted integer symbols with the reference values, children after parents; Mesen P-offsets = file offset - 0x10 for labels of \
-         8-bit banks at file offset >= 0x10. Non-trivial = (>= 2 banks or a unit != 8 or an included file) and a zero-size row (label) next to data; distinct by hash of the rendered files."
+         generator put the item; symbols = exactly the declared, emitted integer symbols with the reference values, children after parents; Mesen P-offsets = file offset - 0x10 for byte-aligned labels \
+         (banks of any address unit) at file offset >= 0x10. Non-trivial = (>= 2 banks or a unit != 8 or an included file) and a zero-size row (label) next to data; distinct by hash of the rendered files."
             .to_string()
     }
     fn assumptions(&self) -> Vec<String> {
